@@ -30,7 +30,10 @@ RULE = ("operation scripts over 1-2 index groups (index channel + 0-2 int64 data
         "0.2), file rollover through small caps, channel deletion and re-creation, plus a malformed share (overlapping "
         "writer, duplicate create, inverted delete); two targeted kinds: a lazily persisted writer whose LAST commit "
         "before Close crosses the file-size cap (rollover, then Close must flush), and one DeleteChannels call over an "
-        "index channel and its data channels in every key order incl. index first. Every sample value encodes "
+        "index channel and its data channels in every key order incl. index first; and a kind with scripted I/O "
+        "faults that do not kill the process (one data-file Write of a frame stores a proper prefix and returns an "
+        "error, or the index Truncate of a data channel's commit returns an error; the writer is closed; later writers "
+        "reuse the pooled handles and commit). Every sample value encodes "
         "(channel, stamp). EVERY prefix of the "
         "recorded mutation log is a crash image (quick: plus 3-9 torn lengths per write incl. record boundaries of the "
         "index; thorough: every byte). Each image is reopened with cesium.Open (public API reads over [0,MAX) and "
@@ -207,6 +210,44 @@ class Interp:
             nxt = [d[0] for d in self.ch[k]["doms"] if d[0] > wr["start"] and d is not wr["dom"].get(k)]
             if nxt and stamps[-1] >= min(nxt):
                 raise Bad("write runs into the next domain")
+        ft = o.get("fault")
+        if ft is not None and ft.get("file") == "index":
+            # the index Truncate of one channel's commit fails: that channel's pointers are committed in memory
+            # only (DCommitTF), the other channels of the frame commit and persist as usual (idxWriter.Commit
+            # joins the errors), the Write reports the error and the writer is closed.
+            if ft.get("call") != "trunc" or ft["key"] not in wr["keys"] or wr["mode"] != "always":
+                raise Bad("unsupported fault")
+            wr["last"] = stamps[-1]
+            for k in wr["keys"]:
+                data = b"".join(le64(self.value(k, s)) for s in stamps)
+                self.emit(k, "DWrite %d %s" % (w, cbytes(data)))
+                self.stamps[k].update(stamps)
+                if k == ft["key"]:
+                    self.emit(k, "DCommitTF %d %s" % (w, cZ(stamps[-1] + 1)), "RErr")
+                else:
+                    self.emit(k, "DCommit %d %s 0" % (w, cZ(stamps[-1] + 1)))
+            self.commit_doms(w, stamps)
+            self.close_writer(w)
+            self.sops.append(("SWriteTF %d %s %d" % (w, clZ(stamps), ft["key"]), True))
+            return
+        if ft is not None:
+            # a short write on one data file of the frame: the channels written before it (index first, then
+            # the frame's key order) hold the whole series, uncommitted; the faulted channel holds j bytes; the
+            # rest is never reached; nothing is committed; the writer reports the error and is closed.
+            if ft.get("file") != "data" or ft.get("call") != "write" or ft["key"] not in wr["keys"]:
+                raise Bad("unsupported fault")
+            if not (1 <= ft["j"] < 8 * len(stamps)):
+                raise Bad("short write must store a proper, non-empty prefix")
+            for k in wr["keys"]:
+                data = b"".join(le64(self.value(k, s)) for s in stamps)
+                self.stamps[k].update(stamps)
+                if k == ft["key"]:
+                    self.emit(k, "DWriteFail %d %s %d%%nat" % (w, cbytes(data), ft["j"]), "RErr")
+                    break
+                self.emit(k, "DWrite %d %s" % (w, cbytes(data)))
+            self.close_writer(w)
+            self.sops.append(("SWriteFault %d" % w, True))
+            return
         wr["last"] = stamps[-1]
         for k in wr["keys"]:
             data = b"".join(le64(self.value(k, s)) for s in stamps)
@@ -593,8 +634,62 @@ def gen_delgroup(rng):
     return {"cap": 1000000, "thr": 1e-7, "ops": ops}
 
 
+def gen_fault(rng):
+    """an I/O fault that does not kill the process: one data-file Write of a frame stores only a prefix and
+    returns an error (short write); cesium closes the writer; later writers reuse the pooled file handles (or
+    fresh ones after a reopen), write and commit with persistence; then the usual crash enumeration"""
+    idx, datas, base = GROUPS[0]
+    keys = [idx] + datas[:rng.choice([0, 1, 1, 2])]
+    ops = [{"op": "create", "key": idx, "index": 0}] + [{"op": "create", "key": d, "index": idx} for d in keys[1:]]
+    t = base + rng.choice([1, 10, 40])
+    wid = 0
+    faults = 0
+    for round_ in range(rng.choice([2, 3, 3, 4])):
+        mode = rng.choice(["always", "always", "lazy", "manual"])
+        ops.append({"op": "open", "w": wid, "keys": keys, "start": t, "mode": mode})
+        closed = False
+        nw = rng.choice([1, 2, 3])
+        for i in range(nw):
+            n = rng.choice([1, 2, 3, 4])
+            stamps = list(range(t, t + n))
+            t += n + rng.choice([0, 1, 2])
+            o = {"op": "write", "w": wid, "stamps": stamps}
+            inject = (faults == 0 and round_ == 0 and i == nw - 1) or (round_ < 3 and rng.random() < 0.2)
+            if inject:
+                if mode == "always" and len(keys) > 1 and rng.random() < 0.35:
+                    # the index Truncate of a DATA channel's commit returns an error (on the index channel the
+                    # same fault leaves the data channels committed and persisted without timestamps — the F50
+                    # family, reported separately — so it is not generated)
+                    o["fault"] = {"key": rng.choice(keys[1:]), "file": "index", "call": "trunc", "j": 0}
+                else:
+                    o["fault"] = {"key": rng.choice(keys), "file": "data", "call": "write",
+                                  "j": rng.randrange(1, 8 * n)}
+                faults += 1
+            ops.append(o)
+            if "fault" in o:
+                closed = True
+                break
+            if mode == "manual" and rng.random() < 0.6:
+                ops.append({"op": "commit", "w": wid})
+        if not closed:
+            if mode == "manual":
+                ops.append({"op": "commit", "w": wid})
+            if rng.random() < 0.8:
+                ops.append({"op": "close", "w": wid})
+                closed = True
+        wid += 1
+        t += rng.choice([3, 10])
+        if not closed:
+            break                   # the last writer stays open: a crash with an open writer
+        if rng.random() < 0.2:
+            ops.append({"op": "reopen"})
+    return {"cap": 1000000, "thr": 1e-7, "ops": ops}
+
+
 def gen_script(rng, kind):
     """returns a case dict (without id)"""
+    if kind == "fault":
+        return gen_fault(rng)
     if kind == "lazyroll":
         return gen_lazyroll(rng)
     if kind == "delgroup":
@@ -783,8 +878,8 @@ def finish(case, rng, tier):
     return case
 
 
-KINDS = ["plain", "lazyroll", "delete", "delgroup", "gc", "rollover", "chan", "plain", "lazyroll", "delete", "delgroup",
-         "gc", "rollover"]
+KINDS = ["plain", "lazyroll", "delete", "delgroup", "gc", "rollover", "fault", "chan", "lazyroll", "delete", "delgroup",
+         "gc", "fault"]
 
 
 def gen_cases(rng, tier, n):
